@@ -28,8 +28,9 @@ import (
 // ---- C17: the watched config file (DESIGN §4 C17, §2.5) ----
 
 type FileSpec struct {
-	Format     string `json:"format,omitempty"` // "" (JSON) | "yaml": a format in which a prefix of a document can be a document
-	Layout     string `json:"layout"`           // plain | k8s
+	Unclean    int    `json:"unclean,omitempty"` // the path is handed to the source in a non-clean spelling (1: //, 2: /./, 3: /x/../)
+	Format     string `json:"format,omitempty"`  // "" (JSON) | "yaml": a format in which a prefix of a document can be a document
+	Layout     string `json:"layout"`            // plain | k8s
 	PollMS     int    `json:"poll_ms,omitempty"`
 	Reload     bool   `json:"reload,omitempty"`
 	RaceConfig bool   `json:"race_config,omitempty"` // Config runs as a task, raced by the writer
@@ -278,6 +279,9 @@ func genFile(seed uint64, faulty bool) *Scenario {
 	fs.RaceConfig = g.pct(20)
 	if fs.Layout == "plain" && g.pct(35) {
 		fs.Format = "yaml"
+	}
+	if g.pct(15) {
+		fs.Unclean = g.in(1, 3)
 	}
 	sc.File = fs
 	pInvalid := 0
@@ -561,7 +565,16 @@ func (r *Run) setupFile(st *srcState) {
 		f.reload = make(chan os.Signal, 4)
 		opts = append(opts, file.WithSignalChannel(f.reload))
 	}
-	src, err := file.NewWatchingSource(f.path, fs.decoder(), opts...)
+	given := f.path
+	switch fs.Unclean {
+	case 1:
+		given = filepath.Dir(f.path) + "//" + filepath.Base(f.path)
+	case 2:
+		given = filepath.Dir(f.path) + "/./" + filepath.Base(f.path)
+	case 3:
+		given = filepath.Dir(f.path) + "/x/../" + filepath.Base(f.path)
+	}
+	src, err := file.NewWatchingSource(given, fs.decoder(), opts...)
 	must(err)
 	f.src = src
 	st.src = src
